@@ -1,9 +1,173 @@
-import Rs1090.Proofs.Decode.Wp
+/-
+BDS 3,0 reader: panic-freedom (C01), serialisation (C07: the flattened untagged `ThreatType` in all
+four shapes), ranges (C08: `threat_bearing` ∈ [0, 360)) — for every reader state.
+-/
+import Rs1090.Proofs.Decode.Bds10
 import Rs1090.Model.Decode.Bds30
+import Rs1090.Props.C13
 namespace Rs1090.Model.Bds30
-open Rs1090 Rs1090.Model
+open Rs1090 Rs1090.Model Rs1090.Model.CommbA
 
-/-- STUB proof for the STUB reader (replaced together with the model) -/
-theorem read_noPanic : NoPanic read := by unfold read; exact noPanic_fail _
+theorem failIfNot30_noPanic (v : Nat) : (failIfNot30 v).isPanic = false := by
+  unfold failIfNot30; split <;> rfl
+
+/-! ### the bearing conversion, over all 64 codes -/
+
+/-- Boolean form of "no panic, no error, and a reported bearing is below 360" -/
+def bearingOk (n : Nat) : Bool :=
+  match threatBearing n with
+  | .ok (some c) => decide (c < 360)
+  | .ok none => true
+  | _ => false
+
+theorem bearingOk_all : ∀ n, n < 2 ^ 6 → bearingOk n = true :=
+  Rs1090.Props.C13.enum 6 (by decide +kernel)
+
+/-- `6 * (n - 1) + 3` never overflows `u16` for a 6-bit code -/
+theorem threatBearing_noPanic (n : Nat) (h : n < 2 ^ 6) : (threatBearing n).isPanic = false := by
+  have := bearingOk_all n h
+  unfold bearingOk at this
+  cases hb : threatBearing n with
+  | ok o => rfl
+  | err e => rfl
+  | panic x => rw [hb] at this; cases this
+
+/-- C08 for the bearing: every reported value is in [0, 360) (after the repair of /repo; the
+    original code gave 363, 369, 375 for the codes 61..63) -/
+theorem threatBearing_lt (n : Nat) (h : n < 2 ^ 6) (c : Nat) (hc : threatBearing n = .ok (some c)) :
+    c < 360 := by
+  have := bearingOk_all n h
+  unfold bearingOk at this
+  rw [hc] at this
+  exact of_decide_eq_true this
+
+theorem threatRange_shape (n : Nat) (j : Json) (h : threatRange n = some j) :
+    ∃ m : Int, j = jrat m 10 := by
+  unfold threatRange at h
+  split at h
+  · cases h
+  · cases h; exact ⟨_, rfl⟩
+
+/-! ### the flattened threat type -/
+
+/-- the three serialised shapes of `ThreatType` -/
+def TTGood (r : SerFields) : Prop :=
+  r = .ok [] ∨
+  (∃ icao, r = .ok [fld (key! "threat_identity") (jhex6 icao)]) ∨
+  (∃ (alt : Nat) (orng : Option Json) (ob : Option Nat),
+    r = .ok [fld (key! "threat_altitude") (jnat alt), fldOpt (key! "threat_range") orng,
+             fldOpt (key! "threat_bearing") (ob.map jnat)] ∧
+    (∀ j, orng = some j → ∃ m : Int, j = jrat m 10) ∧ (∀ c, ob = some c → c < 360))
+
+theorem threatType_wp (Q : SerFields → Rd → Prop) (s : Rd)
+    (h : ∀ r s', TTGood r → Q r s') : wp threatType Q s := by
+  unfold threatType
+  rw [wp_bind]; apply wp_enumId_any; intro id s1 _
+  wp_if h1
+  · wp_run
+    apply h; right; left; exact ⟨_, rfl⟩
+  · wp_if h2
+    · wp_run
+      apply wp_lift_of (Rs1090.Props.C13.ac13_ne_panic _ (by assumption)); intro alt _
+      wp_run
+      rename_i rng _ _ b _ hb
+      apply wp_lift_of (threatBearing_noPanic b hb); intro ob hob
+      wp_run
+      apply h; right; right
+      exact ⟨alt, threatRange rng, ob, rfl, threatRange_shape rng, fun c hc => threatBearing_lt b hb c (hc ▸ hob)⟩
+    · wp_run
+      apply h; left; rfl
+
+theorem araBit_wp (issued : Bool) (Q : Option Bool → Rd → Prop) (s : Rd)
+    (h : ∀ v s', Q (ifIssued issued v) s') : wp (araBit issued) Q s := by
+  unfold araBit
+  rw [wp_bind]; apply wp_flag_any; intro v s'
+  rw [wp_pure]; exact h v s'
+
+/-- `wp_run` extended with the two sub-readers of this register -/
+macro "wp_run30" : tactic =>
+  `(tactic| repeat (first | wp_step | (apply araBit_wp; intro _ _)))
+
+/-- C01 -/
+theorem read_noPanic : NoPanic read := by
+  intro s
+  unfold NoPanicAt read
+  wp_run
+  apply wp_lift_of (failIfNot30_noPanic _); intro _ _
+  wp_run30
+  apply threatType_wp; intro tt s' _
+  wp_run
+
+/-! ### serialisation and ranges of the assembled object -/
+
+theorem serGood_split (tag name : Key) (own B : Fields)
+    (h1 : decide (keyIds (Fields.toObj (fld tag (.lit name) :: (own ++ B)))).Nodup = true)
+    (h2 : Json.wfObj (Fields.toObj (fld tag (.lit name) :: (own ++ B))) = true) :
+    SerGood [] (tagged tag name ((Except.ok B : SerFields).map fun fs => own ++ fs)) :=
+  serGood_ok (fld tag (.lit name) :: (own ++ B)) h1 h2
+
+theorem rangeGood_split (tag name : Key) (own B : Fields)
+    (h1 : Json.inRangeObj (Fields.toObj (fld tag (.lit name) :: own)) = true)
+    (h2 : Json.inRangeObj (Fields.toObj B) = true) :
+    RangeGood (tagged tag name ((Except.ok B : SerFields).map fun fs => own ++ fs)) := by
+  apply rangeGood_ok (fld tag (.lit name) :: (own ++ B))
+  rw [← List.cons_append, toObj_append, inRangeObj_append, h1, h2]
+  rfl
+
+/-- C07: all 2 (RA issued or not) × 6 (threat shapes × `null`s) serialised forms have distinct keys
+    and finite numbers; flattening the threat type never fails -/
+theorem read_serGood : ∀ s, wp read (fun r _ => SerGood [] r) s := by
+  intro s
+  unfold read
+  wp_run
+  apply wp_lift_of (failIfNot30_noPanic _); intro _ _
+  rw [wp_bind]; apply wp_flag_any; intro issued s1
+  wp_run30
+  apply threatType_wp; intro tt s' htt
+  wp_run
+  rcases htt with rfl | ⟨icao, rfl⟩ | ⟨alt, orng, ob, rfl, hr, _⟩
+  · cases issued <;> exact serGood_split _ _ _ _ rfl rfl
+  · cases issued <;> exact serGood_split _ _ _ _ rfl rfl
+  · cases orng with
+    | none => cases ob <;> cases issued <;> exact serGood_split _ _ _ _ rfl rfl
+    | some j =>
+      obtain ⟨m, rfl⟩ := hr j rfl
+      cases ob <;> cases issued <;> exact serGood_split _ _ _ _ rfl rfl
+
+/-- C08: `threat_bearing` is in [0, 360); no other key of this register is in the table -/
+theorem read_rangeGood : ∀ s, wp read (fun r _ => RangeGood r) s := by
+  intro s
+  unfold read
+  wp_run
+  apply wp_lift_of (failIfNot30_noPanic _); intro _ _
+  rw [wp_bind]; apply wp_flag_any; intro issued s1
+  wp_run30
+  apply threatType_wp; intro tt s' htt
+  wp_run
+  rcases htt with rfl | ⟨icao, rfl⟩ | ⟨alt, orng, ob, rfl, hr, hb⟩
+  · cases issued <;> exact rangeGood_split _ _ _ _ rfl rfl
+  · cases issued <;> exact rangeGood_split _ _ _ _ rfl rfl
+  · have hB : Json.inRangeObj (Fields.toObj [fld (key! "threat_altitude") (jnat alt),
+        fldOpt (key! "threat_range") orng, fldOpt (key! "threat_bearing") (ob.map jnat)]) = true := by
+      cases ob with
+      | none =>
+        cases orng with
+        | none => rfl
+        | some j => obtain ⟨m, rfl⟩ := hr j rfl; rfl
+      | some c =>
+        have hc : c < 360 := hb c rfl
+        show Json.inRangeObj [(key! "threat_altitude", Json.int (alt : Int)),
+          (key! "threat_range", orng.getD .null), (key! "threat_bearing", Json.int (c : Int))] = true
+        rw [inRangeObj_cons_none _ _ _ (by rfl), inRangeObj_cons_none _ _ _ (by rfl),
+            inRangeObj_cons_some _ _ _ (.range 0 360 false) (by rfl)]
+        have h2 : (orng.getD Json.null).inRange = true := by
+          cases orng with
+          | none => rfl
+          | some j => obtain ⟨m, rfl⟩ := hr j rfl; rfl
+        rw [h2]
+        simp only [Json.inRange, Constraint.holds, ratIn, Json.inRangeObj, Bool.true_and, Bool.and_true,
+          Bool.false_eq_true, if_true, if_false, decide_eq_true_eq, Bool.and_eq_true, bne_iff_ne]
+        omega
+    cases issued <;> exact rangeGood_split _ _ _ _ rfl hB
 
 end Rs1090.Model.Bds30
